@@ -18,6 +18,7 @@ import (
 	"encoding/json"
 	"fmt"
 	"os"
+	"runtime/coverage"
 	"sort"
 	"strings"
 	"time"
@@ -94,24 +95,24 @@ func sortedPairs(m map[string]string) [][2]string {
 
 // snDump is the raw content of a state.StateNode.
 type snDump struct {
-	HasNode     bool           `json:"hasNode"`
-	HasClaim    bool           `json:"hasNodeClaim"`
-	NodeName    string         `json:"nodeName"`
-	ClaimName   string         `json:"nodeClaimName"`
-	NodeLabels  [][2]string    `json:"nodeLabels"`
-	ClaimLabels [][2]string    `json:"nodeClaimLabels"`
-	NodeTaints  []sk.Taint     `json:"nodeTaints"`
-	ClaimTaints []sk.Taint     `json:"nodeClaimTaints"`
-	Startup     []sk.Taint     `json:"startupTaints"`
-	NodeAlloc   sk.RL          `json:"nodeAllocatable"`
-	ClaimAlloc  sk.RL          `json:"nodeClaimAllocatable"`
-	Marked      bool           `json:"markedForDeletion"`
-	CDeleting   bool           `json:"nodeClaimDeleting"`
-	NDeleting   bool           `json:"nodeDeleting"`
-	PodReq      sk.RL          `json:"podRequests"`
-	DSReq       sk.RL          `json:"daemonSetRequests"`
-	Ports       []usageEntry   `json:"hostPortUsage"`
-	Stage       string         `json:"stage"`
+	HasNode     bool         `json:"hasNode"`
+	HasClaim    bool         `json:"hasNodeClaim"`
+	NodeName    string       `json:"nodeName"`
+	ClaimName   string       `json:"nodeClaimName"`
+	NodeLabels  [][2]string  `json:"nodeLabels"`
+	ClaimLabels [][2]string  `json:"nodeClaimLabels"`
+	NodeTaints  []sk.Taint   `json:"nodeTaints"`
+	ClaimTaints []sk.Taint   `json:"nodeClaimTaints"`
+	Startup     []sk.Taint   `json:"startupTaints"`
+	NodeAlloc   sk.RL        `json:"nodeAllocatable"`
+	ClaimAlloc  sk.RL        `json:"nodeClaimAllocatable"`
+	Marked      bool         `json:"markedForDeletion"`
+	CDeleting   bool         `json:"nodeClaimDeleting"`
+	NDeleting   bool         `json:"nodeDeleting"`
+	PodReq      sk.RL        `json:"podRequests"`
+	DSReq       sk.RL        `json:"daemonSetRequests"`
+	Ports       []usageEntry `json:"hostPortUsage"`
+	Stage       string       `json:"stage"`
 }
 
 func (m *mp) dumpSN(sn *state.StateNode, markedIDs map[string]bool) snDump {
@@ -1238,6 +1239,14 @@ func main() {
 			"goroutine interleavings inside parallelizeUntil are exercised (1 / 4 workers) but not modelled",
 		}}
 	c.Finish("From KV Require Import C04.Model C04.Check.\n"+internHeader(), "case", "check_all", 60)
+	if d := os.Getenv("C04_COVDIR"); d != "" { // coverage audit builds (-cover): write the counters explicitly
+		if err := coverage.WriteMetaDir(d); err != nil {
+			fmt.Fprintln(os.Stderr, "coverage:", err)
+		}
+		if err := coverage.WriteCountersDir(d); err != nil {
+			fmt.Fprintln(os.Stderr, "coverage:", err)
+		}
+	}
 }
 
 var _ = context.Background
